@@ -1,1 +1,4 @@
 import Rustic.Model.Chunker
+import Rustic.Model.Rabin
+import Rustic.Lemmas.Chunker
+import Rustic.Props.C06
